@@ -178,6 +178,89 @@ def main() -> int:
             if a != b:
                 bad += 1
                 print('ENCODE MISMATCH', enc, cps, repr(a), repr(b))
+    # UTF-7 / UTF-16-BE / base64 models vs the real codecs (exhaustive small corpora)
+    from .codecs7 import utf7_decode, utf7_encode, utf16be_encode, b64encode_items, b64decode_items
+    import base64
+    a7 = b'+-A/a,\xff&\t'
+    for kk in range(0, 6):
+        for t in itertools.product(a7, repeat=kk):
+            s7 = bytes(t)
+            try:
+                b = s7.decode('utf-7')
+            except UnicodeDecodeError:
+                b = 'ERR'
+            try:
+                a = ''.join(chr(c) for c in utf7_decode(list(s7)))
+            except UnicodeDecodeError:
+                a = 'ERR'
+            nchecks += 1
+            if a != b:
+                bad += 1
+                if bad < 30:
+                    print('UTF7 DECODE MISMATCH', s7, repr(a), repr(b))
+    for pre in (b'+AOk', b'+2D3eAA', b'+2D0', b'+3gA', b'+AAEAAg', b'+AOkA6Q'):
+        for suf in (b'-', b'', b'-x', b'x', b'+', b'\xff', b'A', b'AA', b'AAA'):
+            s7 = pre + suf
+            try:
+                b = s7.decode('utf-7')
+            except UnicodeDecodeError:
+                b = 'ERR'
+            try:
+                a = ''.join(chr(c) for c in utf7_decode(list(s7)))
+            except UnicodeDecodeError:
+                a = 'ERR'
+            nchecks += 1
+            if a != b:
+                bad += 1
+                print('UTF7 DECODE MISMATCH', s7, repr(a), repr(b))
+    cps7 = [0x41, 0x2b, 0x2d, 0x09, 0x01, 0xe9, 0x7e, 0x5c, 0x10000, 0x20ac, 0x2f, 0x00, 0x10ffff]
+    for kk in range(0, 5):
+        for t in itertools.product(cps7, repeat=kk):
+            st = ''.join(chr(c) for c in t)
+            b = st.encode('utf-7')
+            a = bytes(utf7_encode(list(t)))
+            nchecks += 1
+            if a != b:
+                bad += 1
+                if bad < 30:
+                    print('UTF7 ENCODE MISMATCH', t, a, b)
+            if kk <= 3:
+                a = bytes(utf16be_encode(list(t)))
+                b = st.encode('utf-16-be')
+                nchecks += 1
+                if a != b:
+                    bad += 1
+                    print('UTF16BE MISMATCH', t, a, b)
+    for kk in range(0, 5):
+        for t in itertools.product([0, 1, 0x41, 0xff, 0x80, 0x3f], repeat=kk):
+            raw = bytes(t)
+            a = bytes(b64encode_items(list(raw)))
+            b = base64.b64encode(raw)
+            nchecks += 1
+            if a != b:
+                bad += 1
+                print('B64ENC MISMATCH', raw, a, b)
+            a = bytes(b64decode_items(list(b)))
+            nchecks += 1
+            if a != raw:
+                bad += 1
+                print('B64DEC MISMATCH', b, a, raw)
+    from .symbytes import parse_int
+    for t in itertools.chain.from_iterable(itertools.product(b'1 _+-0a\t', repeat=kk) for kk in range(0, 5)):
+        raw = bytes(t)
+        try:
+            b = int(raw)
+        except ValueError:
+            b = 'ERR'
+        try:
+            a = parse_int(list(raw))
+        except ValueError:
+            a = 'ERR'
+        nchecks += 1
+        if a != b:
+            bad += 1
+            if bad < 40:
+                print('INT MISMATCH', raw, a, b)
     print('difftest: %d patterns (%d skipped as unsupported), %d comparisons, %d mismatches'
           % (len(pats), len(skipped), nchecks, bad))
     for pat, why in skipped:
